@@ -111,7 +111,21 @@ def main(argv=None):
         q, t = BUDGET.get(pid, (1000, 20000))
         n = t if tier == 'thorough' else q
         if ctx.driver_ok or a.no_build:
-            mod.run(ctx, n)
+            try:
+                mod.run(ctx, n)
+            except core.InfraError:
+                raise
+            except Exception as e:
+                # an exception that escapes from the implementation where the harness expected a result means the
+                # correspondence no longer holds (the run stops here; the failing-input search follows)
+                tb = traceback.extract_tb(e.__traceback__)
+                if tb and '/cerberus/' in tb[-1].filename and '/verif/' not in tb[-1].filename:
+                    ctx.broken.append(('port', 'implementation-raised',
+                                       {'note': 'the implementation raised %s where the harness expected a result' % type(e).__name__,
+                                        'model': None, 'real': '%s: %s' % (type(e).__name__, str(e)[:200]),
+                                        'case': {'trace': ['%s:%d %s' % (f.filename, f.lineno, f.name) for f in tb[-4:]]}}))
+                else:
+                    raise
         else:
             ctx.notes.append('driver not built: ports skipped, oracle search only')
         # the failing-input search after a broken obligation; VERIF_SEARCH_SCALE < 1 shortens it (used by tools/matrix.py
